@@ -1345,6 +1345,12 @@ impl TensorStore {
             }
         }
 
+        // Table rows live in the relational slab, which is not reachable through keys:
+        // without this, every table that existed in the image was gone after a restore.
+        self.router
+            .relations
+            .restore_from(new_router.relations.snapshot());
+
         Ok(())
     }
 
